@@ -136,6 +136,9 @@ def gen_score(rng, profile="full", size="small"):
             if new_ts != cur:  # a repeated identical signature is not a change
                 cur = new_ts
                 change = cur
+            elif profile == "midi":
+                # ... but it is a mark of the score all the same (restated at a section start): MIDI keeps it
+                change = cur
         L = F(cur[0] * 4, cur[1])
         if m == 0 and pickup is not None:
             L = pickup
@@ -144,13 +147,18 @@ def gen_score(rng, profile="full", size="small"):
     for p in range(nparts):
         parts.append(gen_part(rng, "P%d" % (p + 1), plan, pickup is not None, profile))
     sc = {"id": None, "parts": parts, "groups": None}
-    if nparts >= 2 and profile == "full" and rng.random() < 0.4:
+    if nparts >= 2 and profile in ("full", "midi") and rng.random() < 0.4:
         # nested groups: describe structure as nested lists of part indices
         if nparts == 2:
             sc["groups"] = [{"name": "G1", "symbol": rng.choice(("brace", "bracket", None)), "number": 1, "children": [0, 1]}]
-        else:
+        elif rng.random() < 0.5:
             sc["groups"] = [
                 {"name": "G1", "symbol": "bracket", "number": 1, "children": [0, {"name": "G2", "symbol": "brace", "number": 2, "children": [1, 2]}]}
+            ]
+        else:
+            # the outer group continues after its nested group
+            sc["groups"] = [
+                {"name": "G1", "symbol": "bracket", "number": 1, "children": [{"name": "G2", "symbol": "brace", "number": 2, "children": [0, 1]}, 2]}
             ]
     return sc
 
@@ -463,7 +471,14 @@ def decorate(rng, part, profile):
         ns = sorted(ns, key=lambda n: n["t"])
         firsts = [n for n in ns if n["t"] == ns[0]["t"]]
         lasts = [n for n in ns if n["t"] == ns[-1]["t"]]
-        if rng.random() < 0.7:
+        x = rng.random()
+        onsets = sorted(set(n["t"] for n in ns))
+        if x < 0.12 and profile == "full" and len(onsets) >= 3:
+            # two brackets that share a note: the note that ends the first begins the second
+            mid = [n for n in ns if n["t"] == onsets[len(onsets) // 2]][0]
+            for a, b in ((firsts[0], mid), (mid, lasts[0])):
+                part["tuplets"].append({"start": a["id"], "end": b["id"], "actual": ns[0]["sym"]["actual_notes"], "normal": ns[0]["sym"]["normal_notes"], "type": ns[0]["sym"]["type"]})
+        elif x < 0.7:
             part["tuplets"].append({"start": firsts[0]["id"], "end": lasts[0]["id"], "actual": ns[0]["sym"]["actual_notes"], "normal": ns[0]["sym"]["normal_notes"], "type": ns[0]["sym"]["type"]})
     # --- slurs
     for vn, vn_notes in sorted(by_voice.items()):
